@@ -94,6 +94,8 @@ def gen_case(rng, tier):
     if math.log(max(stop / base, 1.0)) / math.log(factor) > 400:
         factor = 2.0             # keep sequences short (the harness materialises them)
     count = rng.choice([None, None, None, 0, 1, 2, k, k + 1, k + 3, 'repeat'])
+    if rng.random() < 0.02:
+        count = rng.choice([2 ** 63 - 1, 2 ** 63, 2 ** 64, 10 ** 30, 1500])     # explicit counts nobody would materialise
     jitter = rng.choice([False, False, 0.1, -0.1, 0.5, -0.5, 1.0, -1.0, True, 0.999, -0.25])
     api = rng.choice(['backoff', 'backoff_iter'])
     case = {'start': start, 'stop': stop, 'factor': factor, 'count': count, 'jitter': jitter,
@@ -226,11 +228,13 @@ def run_case(case):
     if c == 'repeat':
         c = ''.join(['rep', 'eat'])     # an equal string that is not the interned literal (read from a config file, say)
         kw['count'] = c
+    # an explicit count too large to materialise (2**63, 2**64 ...) is consumed like 'repeat': the first values only
+    endless = c == 'repeat' or (isinstance(c, int) and not isinstance(c, bool) and c > 5000)
     if valid and isinstance(c, int) and 0 <= c <= 5000:
         need = c                        # an explicit count needs no walk to stop (factor 1 never gets there)
     elif valid:
         to_stop = _steps_to_stop(s, t, f, cap=5000)
-        if to_stop >= 5000 and c == 'repeat' and f == 1.0:
+        if to_stop >= 5000 and endless and f == 1.0:
             to_stop = 40                # constant sequence, repeated endlessly: look at the first few dozen
         if to_stop >= 5000:
             if c is None and _stationary(s, t, f):
@@ -254,22 +258,22 @@ def run_case(case):
             out.probe('skipped_sequence_too_long')
             out.digest = log.digest()
             return out
-        need = (to_stop + 4) if c == 'repeat' else (to_stop + 2 if c is None else c)
+        need = (to_stop + 4) if endless else (to_stop + 2 if c is None else c)
     vals, exc = [], None
     overrun = False
     try:
         # always consume the generator form first, bounded: a sequence that does not end where
         # it must is reported, not materialised
         g = it.backoff_iter(s, t, **kw)
-        lim = (need if c == 'repeat' else (need + 50 if need is not None else 50))
+        lim = (need if endless else (need + 50 if need is not None else 50))
         for v in g:
             vals.append(v)
-            if len(vals) >= lim and c == 'repeat':
+            if len(vals) >= lim and endless:
                 break
             if len(vals) > lim + 1000:
                 overrun = True
                 break
-        if case['api'] == 'backoff' and not overrun and c != 'repeat':
+        if case['api'] == 'backoff' and not overrun and not endless:
             # the list form must be the same sequence (same scripted draws)
             rnd2 = SimRandom(case['script'], None)
             it.random = rnd2
@@ -333,9 +337,9 @@ def run_case(case):
     ref = _reference(s, t, f, max(n, 1))
     desc = 'backoff(%r, %r, count=%r, factor=%r, jitter=%r) -> %r' % (s, t, c, f, j, vals[:12])
     # length
-    if c not in (None, 'repeat') and n != c:
+    if c not in (None, 'repeat') and not endless and n != c:
         out.fail('wrong-length', n, '%s: %d values, count=%r' % (desc, n, c), clause='count')
-    elif c == 'repeat' and n < need:
+    elif endless and n < need:
         out.fail('wrong-length', n, "%s: 'repeat' stopped after %d values" % (desc, n), clause='repeat')
     elif c is None and n == 0:
         out.fail('wrong-length', 0, '%s: default count produced nothing' % desc, clause='default-count')
